@@ -179,7 +179,7 @@ HOSTILE = ["nan", "NaN", " nan ", "-nan", "inf", "-Infinity", "1e999", "1e-999",
 # lists whose items are not in sorted order (a validator that "canonicalises" must do so on its own copy), and strings that
 # are legal as text but malformed / positional / attribute-reaching as format templates
 HOSTILE_LISTS = [["zz", "aa"], ["t2:semantic", "a:b"], [3, 1, 2], ["b", "a", "b"]]
-HOSTILE_TEXT = ["{", "}", "tail {", "{0}: {labels}", "{labels:>q}", "{labels!x}", "{labels.__class__}", "{labels[0]}", "{}", "%s %(x)s", "{{ {labels} }}", '{"k": "{labels}"}']
+HOSTILE_TEXT = ["x\x00y", "\x00", "a/../b", "dir with space/sub", "ünï/中", "{", "}", "tail {", "{0}: {labels}", "{labels:>q}", "{labels!x}", "{labels.__class__}", "{labels[0]}", "{}", "%s %(x)s", "{{ {labels} }}", '{"k": "{labels}"}']
 HOSTILE_NUM = [10 ** 400, -10 ** 400, 1e308, 1e200, 2 ** 63, 10 ** 18, 0, -1, 5e-324, 1e-300]
 
 
@@ -437,16 +437,29 @@ def engine_round(norm, sess, case, muts):
         except Exception as ex:
             sess.inconclusive_because(f"harness could not build env: {ex}")
             return
+        # an accepted value of t4.snapshot_dir itself is kept (relative names resolve inside the private directory)
+        keep_sd = bool(muts) and list(muts[0][0]) == ["t4", "snapshot_dir"]
+        cwd0 = os.getcwd()
         with env:
-            try:
-                cfgo["t4"]["snapshot_dir"] = env.snap_dir
-            except Exception:
-                pass
+          try:
+            if keep_sd:
+                os.chdir(env.base)
+                sess.count("engine_runs_under_the_accepted_snapshot_dir")
+            else:
+                try:
+                    cfgo["t4"]["snapshot_dir"] = env.snap_dir
+                except Exception:
+                    pass
             agents = ["A", "B"] if wi == 2 else ["A"]
             for ti in range(2):
                 r = env.run(agents[ti % len(agents)], "hello world moon" if ti == 0 else "reply to the world", ti + 1,
                             plan=({"ops": [{"kind": "Speak"}, {"kind": "EditGraph"}], "deltas": [["node", "n:a", "weight", 0.4, 1]], "reflection": True} if ti == 1 else None))
                 sess.count("engine_turns")
+                if r["exc"] and keep_sd and r["exc_type"] in ("OSError", "FileNotFoundError", "PermissionError", "NotADirectoryError", "FileExistsError", "IsADirectoryError"):
+                    # the directory cannot be created HERE (the snapshot body write is not a fail-soft site): the environment's
+                    # verdict, not the validator's
+                    sess.count("accepted_snapshot_dir_unusable_in_this_environment")
+                    return
                 if r["exc"]:
                     import re
                     fn = re.findall(r'in (\w+)\n', r["tb"])
@@ -457,6 +470,8 @@ def engine_round(norm, sess, case, muts):
                         mech = f"accepted-but-engine-raises:valid-config:{r['exc_type']}@{where}"
                     sess.violation(mech, case, {"exc": r["exc"][:200], "where": where, "world": wi, "turn": ti})
                     return
+          finally:
+            os.chdir(cwd0)
 
 
 def check_case(cfg, muts, sess, engine=True, script=True, seen_norm=None):
@@ -579,6 +594,9 @@ def _chunk(args):
         sweep += [(p_, v_) for p_ in interior for v_ in (None, 1, "x", [], True, {}, {1: 2, "EditGraph": 3}, {None: 1, "a": 0, 2.5: 1}, {(1, 2): 1, "b": {3: 4, "c": 5}})]
         # unknown keys whose names carry line-boundary characters (they are echoed in the messages), under every section
         sweep += [(p_ + (k_,), 1) for p_ in [()] + interior for k_ in ("bad\rkey", "ff\x0ckey", "nel\x85key", "ls\u2028key", "nl\nkey")]
+        # unknown keys carrying nested containers with mixed-type / non-string keys, under every section (sections that keep
+        # unknown keys hand them on to the engine, which builds cache keys from whole sub-sections)
+        sweep += [(p_ + ("extra_unknown",), v_) for p_ in [()] + interior for v_ in ({1: 2, "x": 3}, [{"a": 1, 2: 3}], {"k": {None: 1, "a": 0}}, {"k": [NAN]})]
         nchunks = par.NWORK
         seen_norm = set()
         for j, (p_, v_) in enumerate(sweep):
